@@ -334,7 +334,16 @@ def trace_validation(ctx, sc):
                 r = [r[0], r[2], r[1], r[3]] if r[0] < r[2] and r[1] < r[3] else [8, 24, 4, 16]
             if cls == 'cannulus' and r[0] == r[1]:
                 r[1] += 4
-            items.append({'cls': cls, 'x': [g(-50, 50) for _ in range(nv)], 'y': [g(-50, 50) for _ in range(nv)], 'r': r,
+            xs, ys = [g(-50, 50) for _ in range(nv)], [g(-50, 50) for _ in range(nv)]
+            if cls == 'polygon' and rnd.random() < 0.4:      # axis-aligned edges: consecutive vertices share a coordinate
+                for j in range(1, nv):
+                    if j % 2:
+                        ys[j] = ys[j - 1]
+                    else:
+                        xs[j] = xs[j - 1]
+                if len({(a, b) for a, b in zip(xs, ys)}) < nv or (xs[-1], ys[-1]) == (xs[-2], ys[-2]):
+                    xs, ys = [0, 16, 16, 0][:nv] + [8] * (nv - 4), [0, 0, 12, 12][:nv] + [20] * (nv - 4)
+            items.append({'cls': cls, 'x': xs, 'y': ys, 'r': r,
                           'ang': g(-90, 90) if cls in ('ellipse', 'eannulus', 'rectangle') else 0,
                           'inc': rnd.choice(['absent', 'absent', 'T', 'F', '0', '1']), 'comp': rnd.choice([-1, -1, rnd.randint(1, 9)])})
         try:
